@@ -17,7 +17,7 @@ func init() {
 }
 
 func (callEngine) Worker(c workerCfg) *evid.Stats {
-	cfg := callsim.Config{Prop: c.Prop, Tier: c.Tier, Seed: c.Seed, W: c.W, NW: c.NW, Deadline: time.Now().Add(c.Budget), RepoDir: c.Repo, Known: c.Known}
+	cfg := callsim.Config{Prop: c.Prop, Tier: c.Tier, Seed: c.Seed, W: c.W, NW: c.NW, Deadline: time.Now().Add(c.Budget), RepoDir: c.Repo, Known: c.Known, Journal: c.Journal, EmitAt: c.EmitAt, EmitOut: c.EmitOut}
 	switch c.Prop {
 	case "C02":
 		return callsim.Worker02(cfg)
